@@ -8,7 +8,11 @@
 (* and text nodes); the cursor starts at a node of it.                     *)
 (* A declaration tree T has nodes 1..T.m in pre-order (node 1 is           *)
 (* FINAL_OUTPUT), par, and per node                                        *)
-(*   kind   "field" | "const" | "object" | "array" | "concat"              *)
+(*   kind   "field" | "const" | "object" | "array" | "concat" | "dynfield"  *)
+(*          dynfield = a field whose xpath is computed: its single child   *)
+(*          is the xpath_dynamic declaration, evaluated at the cursor; its *)
+(*          value "a" / "b" is the xpath; a failure or an empty value of   *)
+(*          that computation is treated as "no match" (parse.go:111-117)   *)
 (*   xp     0 (no xpath) or an index into XP (relative paths)              *)
 (*   ty     "none" | "int"      (type)                                     *)
 (*   notrim, keep               (no_trim, keep_empty_or_null)              *)
@@ -42,6 +46,7 @@ UnderArray(T, t) == T.par[t] # 0 /\ T.kind[T.par[t]] = "array"
 \* --- texts are sequences of one-character strings over {"1", "x", "y", " "} so that trimming,
 \* concatenation and the int cast are computable by TLC.  Chars maps the literals of the model.
 Chars(s) == CASE s = "" -> <<>> [] s = "1" -> <<"1">> [] s = "2" -> <<"2">> [] s = "x" -> <<"x">> [] s = " y " -> <<" ", "y", " ">>
+            [] s = "a" -> <<"a">> [] s = "b" -> <<"b">>
 RECURSIVE TrimL(_), TrimR(_)
 TrimL(s) == IF s # <<>> /\ s[1] = " " THEN TrimL(Tail(s)) ELSE s
 TrimR(s) == IF s # <<>> /\ s[Len(s)] = " " THEN TrimR(SubSeq(s, 1, Len(s) - 1)) ELSE s
@@ -81,6 +86,9 @@ ArgText(v) == IF v[1] \in {"s", "i"} THEN Tail(v) ELSE <<>>
 
 RECURSIVE RefEval(_, _, _, _)
 
+\* the xpath (index into XP) a computed xpath value denotes; 0 = none (failure, omitted, empty or not a usable path)
+DynXP(v) == IF v = <<"s", "a">> THEN 1 ELSE IF v = <<"s", "b">> THEN 2 ELSE 0
+
 \* anchoring: FINAL_OUTPUT and direct children of array never query; otherwise xpath selects the cursor
 RefAnchor(D, T, t, n) ==
   IF t = 1 \/ UnderArray(T, t) \/ T.xp[t] = 0 THEN <<"one", n>>
@@ -92,6 +100,13 @@ RefAnchor(D, T, t, n) ==
 RefEval(D, T, t, n0) ==
   LET a == RefAnchor(D, T, t, n0) IN
   IF T.kind[t] = "const" THEN NormStr(T, t, Chars(T.lit[t]))
+  ELSE IF T.kind[t] = "dynfield" THEN
+    IF UnderArray(T, t) THEN NormStr(T, t, StrSeq(D, n0))                 \* the array already selected the node
+    ELSE LET xpi == DynXP(RefEval(D, T, TKids(T, t)[1], n0))
+         IN IF xpi = 0 THEN NilV
+            ELSE LET m == SelSteps(D, All(D), XP[xpi], 1, {n0})
+                 IN IF m = {} THEN NilV ELSE IF Cardinality(m) > 1 THEN FailV
+                    ELSE NormStr(T, t, StrSeq(D, CHOOSE x \in m : TRUE))
   ELSE IF T.kind[t] = "array" THEN
     \* array: no anchoring of its own; every match of a child's xpath (or the cursor) is one element
     LET ks == TKids(T, t)
@@ -104,7 +119,9 @@ RefEval(D, T, t, n0) ==
         Children(k) ==
           IF k > Len(ks) THEN <<"ok">>
           ELSE LET c == ks[k]
-                   sel == IF T.xp[c] = 0 THEN {n0} ELSE SelSteps(D, All(D), XP[T.xp[c]], 1, {n0})
+                   dxp == IF T.kind[c] = "dynfield" THEN DynXP(RefEval(D, T, TKids(T, c)[1], n0)) ELSE 0
+                   sel == IF T.kind[c] = "dynfield" THEN (IF dxp = 0 THEN {} ELSE SelSteps(D, All(D), XP[dxp], 1, {n0}))   \* computeXPath failed: skipped
+                          ELSE IF T.xp[c] = 0 THEN {n0} ELSE SelSteps(D, All(D), XP[T.xp[c]], 1, {n0})
                    nodes == SelectSeq([i \in 1..D.n |-> i], LAMBDA i: i \in sel)
                    e == Elems(c, nodes)
                    rest == Children(k + 1)
@@ -162,7 +179,7 @@ DeclText(T, t) ==
       Cat(k) == IF k > Len(ks) THEN <<>> ELSE <<"(">> \o DeclText(T, ks[k]) \o <<")">> \o Cat(k + 1)
   IN <<T.kind[t], ToString(T.xp[t]), T.ty[t], ToString(T.notrim[t]), ToString(T.keep[t]), T.lit[t]>> \o Cat(1)
 
-Queries(T, t) == t # 1 /\ T.xp[t] # 0 /\ ~UnderArray(T, t)            \* xpathQueryNeeded
+Queries(T, t) == t # 1 /\ T.xp[t] # 0 /\ ~UnderArray(T, t)            \* xpathQueryNeeded (an xpath_dynamic declaration has no parent)
 
 CacheKey(T, t, n, KeyHasAnchor) ==
   <<ToString(n)>> \o (IF KeyHasAnchor THEN <<ToString(Queries(T, t))>> ELSE <<>>) \o DeclText(T, t)
@@ -189,6 +206,15 @@ ImplEval(D, T, t, n0, cache, KeyHasAnchor, SortByFqdn) ==
                 IN IF m = {} THEN <<"none", 0>> ELSE IF Cardinality(m) > 1 THEN <<"many", 0>> ELSE <<"one", CHOOSE x \in m : TRUE>>
   IN
   IF T.kind[t] = "const" THEN save([v |-> NormStr(T, t, Chars(T.lit[t])), c |-> cache])
+  ELSE IF T.kind[t] = "dynfield" THEN
+    IF UnderArray(T, t) THEN save([v |-> NormStr(T, t, StrSeq(D, n0)), c |-> cache])
+    ELSE LET dr == ImplEval(D, T, TKids(T, t)[1], n0, cache, KeyHasAnchor, SortByFqdn)       \* computeXPathDynamic -> ParseNode
+             xpi == DynXP(dr.v)
+         IN IF xpi = 0 THEN save([v |-> NilV, c |-> dr.c])                                   \* error swallowed: "no match"
+            ELSE LET m == SelSteps(D, All(D), XP[xpi], 1, {n0})
+                 IN IF m = {} THEN save([v |-> NilV, c |-> dr.c])
+                    ELSE IF Cardinality(m) > 1 THEN [v |-> FailV, c |-> dr.c]
+                    ELSE save([v |-> NormStr(T, t, StrSeq(D, CHOOSE x \in m : TRUE)), c |-> dr.c])
   ELSE IF T.kind[t] = "array" THEN
     LET ks == FqdnOrder(TKids(T, t), SortByFqdn)
         RECURSIVE Elems(_, _, _), Children(_, _)
@@ -201,9 +227,12 @@ ImplEval(D, T, t, n0, cache, KeyHasAnchor, SortByFqdn) ==
         Children(k, ch) ==
           IF k > Len(ks) THEN [v |-> <<"ok">>, c |-> ch]
           ELSE LET c == ks[k]
-                   sel == IF T.xp[c] = 0 THEN {n0} ELSE SelSteps(D, All(D), XP[T.xp[c]], 1, {n0})
+                   dr == IF T.kind[c] = "dynfield" THEN ImplEval(D, T, TKids(T, c)[1], n0, ch, KeyHasAnchor, SortByFqdn) ELSE [v |-> NilV, c |-> ch]
+                   dxp == DynXP(dr.v)
+                   sel == IF T.kind[c] = "dynfield" THEN (IF dxp = 0 THEN {} ELSE SelSteps(D, All(D), XP[dxp], 1, {n0}))
+                          ELSE IF T.xp[c] = 0 THEN {n0} ELSE SelSteps(D, All(D), XP[T.xp[c]], 1, {n0})
                    nodes == SelectSeq([i \in 1..D.n |-> i], LAMBDA i: i \in sel)
-                   e == Elems(c, nodes, ch)
+                   e == Elems(c, nodes, dr.c)
                IN IF e.v = FailV THEN e
                   ELSE LET rest == Children(k + 1, e.c)
                        IN IF rest.v = FailV THEN rest ELSE [v |-> <<"ok">> \o Tail(e.v) \o Tail(rest.v), c |-> rest.c]
